@@ -42,6 +42,35 @@ type inlineCand struct {
 	file   *token.File
 	src    []byte
 	params []string // receiver first (if any), then parameters
+	isCall bool     // a thin wrapper: the expression is one call with side-effect-free operands
+}
+
+// thinCall: e is a single call whose function operand and arguments are side-effect free (`return persist.Store(ctx,
+// name, encoded)`, `return m.load(ctx, link)`). With side-effect-free arguments at the call site, writing the call back
+// there evaluates exactly what the wrapper evaluated, in the same order: the one effect is the wrapped call itself.
+func thinCall(e ast.Expr, info *types.Info, cands map[*types.Func]*inlineCand) bool {
+	ce, ok := ast.Unparen(e).(*ast.CallExpr)
+	if !ok || ce.Ellipsis.IsValid() {
+		return false
+	}
+	if tv, has := info.Types[ce.Fun]; has && (tv.IsType() || tv.IsBuiltin()) {
+		return false
+	}
+	switch f := ast.Unparen(ce.Fun).(type) {
+	case *ast.Ident:
+	case *ast.SelectorExpr:
+		if !pureExpr(f.X, info, cands, false) {
+			return false
+		}
+	default:
+		return false
+	}
+	for _, a := range ce.Args {
+		if !pureExpr(a, info, cands, false) {
+			return false
+		}
+	}
+	return true
 }
 
 func pureExpr(e ast.Expr, info *types.Info, cands map[*types.Func]*inlineCand, allowCand bool) bool {
@@ -128,7 +157,10 @@ func inlineRewrite(pkgs []*packages.Package, overlay map[string][]byte) (map[str
 					continue
 				}
 				sig := obj.Type().(*types.Signature)
-				if sig.Results().Len() != 1 || sig.Variadic() {
+				if sig.Results().Len() < 1 || sig.Variadic() {
+					continue
+				}
+				if _, isCall := ast.Unparen(ret.Results[0]).(*ast.CallExpr); sig.Results().Len() != 1 && !isCall {
 					continue
 				}
 				// (predicates first of all; the same treatment serves any one-expression helper: `wrap(op, err)` =
@@ -167,8 +199,14 @@ func inlineRewrite(pkgs []*packages.Package, overlay map[string][]byte) (map[str
 				info = p.TypesInfo
 			}
 		}
-		if info == nil || !pureExpr(c.expr, info, cands, true) {
+		if info == nil {
 			delete(cands, f)
+		} else if !pureExpr(c.expr, info, cands, true) {
+			if thinCall(c.expr, info, cands) {
+				c.isCall = true
+			} else {
+				delete(cands, f)
+			}
 		}
 	}
 	if len(cands) == 0 {
@@ -301,7 +339,11 @@ func inlineRewrite(pkgs []*packages.Package, overlay map[string][]byte) (map[str
 					for _, r := range reps {
 						body = body[:r.s] + r.t + body[r.e:]
 					}
-					body = "(" + strings.ReplaceAll(body, "\n", " ") + ")"
+					if c.isCall {
+						body = strings.ReplaceAll(body, "\n", " ") // (a call needs no parentheses, and `defer (f())` would not compile)
+					} else {
+						body = "(" + strings.ReplaceAll(body, "\n", " ") + ")"
+					}
 					edits[tf.Name()] = append(edits[tf.Name()], edit{tf.Offset(ce.Pos()), tf.Offset(ce.End()), body})
 					log = append(log, callee.Name()+" in "+fd.Name.Name)
 				}
